@@ -35,7 +35,8 @@ func (s ser) id() string {
 func universe() []ser {
 	var u []ser
 	for _, n := range []string{"", "a", "b", "a.b"} {
-		for _, tg := range [][]string{nil, {"t"}, {"k:v"}, {"t", "k:v"}} {
+		// the last two are one tag set written in two orders (two tags sharing a key): one series identity
+		for _, tg := range [][]string{nil, {"t"}, {"k:v"}, {"t", "k:v"}, {"k:v", "k:w"}, {"k:w", "k:v"}} {
 			for _, src := range []string{"", "h"} {
 				for _, ty := range []gostatsd.MetricType{gostatsd.COUNTER, gostatsd.GAUGE, gostatsd.TIMER, gostatsd.SET} {
 					u = append(u, ser{n, tg, src, ty})
@@ -76,6 +77,7 @@ func checkBatch(batch []ser, maxN int) {
 			continue
 		}
 		seen := map[string]int{}
+		idSeen := map[string]int{}
 		var union []fx.Series
 		used := map[int]bool{}
 		for i, p := range parts {
@@ -85,6 +87,10 @@ func checkBatch(batch []ser, maxN int) {
 					bad("not-disjoint", fmt.Sprintf("series %s in shards %d and %d", k, j, i))
 				}
 				seen[k] = i
+				if j, ok := idSeen[idOfSnap(s)]; ok {
+					bad("identity-split", fmt.Sprintf("the series %s (one name, tag set and source) is held under two keys, in shards %d and %d", idOfSnap(s), j, i))
+				}
+				idSeen[idOfSnap(s)] = i
 				used[i] = true
 				union = append(union, s)
 				ik := fmt.Sprintf("%s#%d", idOfSnap(s), n)
